@@ -304,6 +304,8 @@ func jsonUniverses(j *jobCtx) []Universe {
 	add("treemap", &mapUniverse{kind: "treemap", cmp: "rev", nk: 3, ctr: ctr})
 	add("hashbidimap", &mapUniverse{kind: "hashbidimap", nk: 3, nv: 3, ctr: ctr})
 	add("treebidimap", &mapUniverse{kind: "treebidimap", cmp: "nat", vcmp: "nat", nk: 3, nv: 3, ctr: ctr})
+	add("treebidimap", &mapUniverse{kind: "treebidimap", cmp: "half", vcmp: "nat", nk: 3, nv: 3, ctr: ctr})
+	add("treemap", &mapUniverse{kind: "treemap", cmp: "halfx", nk: 3, ctr: ctr})
 	add("redblacktree", &mapUniverse{kind: "redblacktree", cmp: "nat", nk: pick(5, 6), ctr: ctr})
 	add("redblacktree", &mapUniverse{kind: "redblacktree", cmp: "rev", nk: 3, ctr: ctr})
 	add("avltree", &mapUniverse{kind: "avltree", cmp: "nat", nk: pick(5, 6), ctr: ctr})
@@ -428,12 +430,13 @@ func sameBagAny(a, b []any) bool {
 func corpus(x Inst, r *rand.Rand, own []string, thorough bool) []string {
 	var c []string
 	common := []string{"null", "", " ", "1", `"abc"`, "tru", "[1,2", `{"1":10`, "[1,2,]", "nul", "\x00\xff\xfe", "[[1]]", `{"a":{"b":1}}`,
-		"true", "[]x", "{}{}", " null "}
+		"true", "[]x", "{}{}", " null ", "[]]", "[] ]", "null]", "null}", "{}}", "[1,2]]", "[1,2]\n}", `{"1":10}}`, `{"1":10}]`, "[1,2],", "[1,2] [3]"}
 	if isKV(x) {
 		c = []string{"{}", " { } ", `{"1":10}`, `{"2":20,"1":10}`, `{"1":10,"2":20,"3":30}`, `{"3":30,"1":10,"2":20}`,
 			`{"1":10,"1":11}`, `{"1":10,"2":20,"1":12}`, `{"1":10,"2":10}`, `{"1":10,"2":10,"3":10}`, `{"2":7,"1":7,"3":8}`,
 			"[]", "[1]", `{"1":"x"}`, `{"1":10,"2":"x"}`, `{"x":1}`, `{"1":10,"x":1}`, `{"1":1.5}`, `{"1.5":1}`, `{"1":null}`,
-			`{"01":1}`, `{"-1":5,"0":6}`, `{"1":10,"2":20}garbage`, `{"1":99999999999999999999}`}
+			`{"01":1}`, `{"-1":5,"0":6}`, `{"1":10,"2":20}garbage`, `{"1":99999999999999999999}`,
+			`{"0":1,"1":2,"2":3}`, `{"1":5,"0":6,"3":7,"2":8}`, `{"0":4,"1":4}`}
 	} else if _, ok := x.(*heapInst); ok {
 		c = []string{"[]", ` [ ] `, `[{"p":1,"id":1}]`, `[{"p":3,"id":1},{"p":1,"id":1}]`, `[{"p":3,"id":1},{"p":2,"id":1},{"p":1,"id":1}]`,
 			`[{"p":2,"id":1},{"p":2,"id":2},{"p":1,"id":1},{"p":1,"id":2}]`, `[{"p":1,"id":1},{"p":1,"id":1}]`,
